@@ -66,8 +66,9 @@ CHECKS['C05'] = ('model_checking', 'enum',
     'a pairwise-covering configuration set in quick. Every file must parse as complete records, '
     'one gzip member each, single-line fields, correct Content-Length, CRLF CRLF, unique ids, '
     'warcinfo back-pointers, block digest, and payload digest over the bytes after the wire '
-    'header block; revisit blocks end at the header end.',
-    'strict reader is the specification; FTP sessions not yet in this enumeration.', '5/C05')
+    'header block; revisit blocks end at the header end. Also: overlapping sessions under every '
+    'interleaving, FTP sessions, and a new run overwriting an earlier run\'s files.',
+    'strict reader is the specification.', '5/C05')
 CHECKS['C06'] = ('fault_enumeration', 'faultfs',
     'exhaustive I/O-error injection and kill-point (torn write) enumeration over the raw '
     'operation log of one append',
@@ -83,7 +84,8 @@ CHECKS['C07'] = ('model_checking', 'enum',
     'Same enumeration as C05 with CDX forced on (incl. rollover into numbered files and appending '
     'to existing WARC+CDX): one line per response record, none for others; file[V:V+S] is exactly '
     'that record / gzip member; URL, record id, checksum equal the record fields; status and MIME '
-    'type equal those parsed from the archived block by the RFC 7230 reference.',
+    'type equal those parsed from the archived block by the RFC 7230 reference. A two-run history '
+    '(earlier run overwritten without --warc-append) must leave no stale index line.',
     'strict reader + rfc7230 reference.', '5/C07')
 
 CHECKS['C13'] = ('model_checking', 'explore',
@@ -101,11 +103,11 @@ CHECKS['C13'] = ('model_checking', 'explore',
 CHECKS['C14'] = ('model_checking', 'statespace',
     'explicit-state BFS over operation histories of the real SQLite URL table (state = database '
     'image, reopened on every transition) against a dict reference model',
-    'All operation histories up to depth 3 (quick) / 5 (thorough) over a 31-operation alphabet on '
+    'All operation histories up to depth 3 (quick) / 4 (thorough) over a 34-operation alphabet on '
     '3 URLs + an absent one are applied to the real URLTableHookWrapper(SQLiteURLTable); after '
     'every step the return value and the full table contents must equal the reference model, '
-    'also after close+reopen; states are deduplicated by a rank-normalised dump of all tables, '
-    'and merged states are checked to have identical futures.',
+    'also after close+reopen; states are deduplicated by a rank-normalised dump of the tables the '
+    'property can observe, and merged states are checked to have identical futures.',
     'check_out order unspecified (model follows the implementation); SQLAlchemy 2.0 with the '
     'select([...]) shim; SQLite atomic commit trusted.', '5/C14')
 
@@ -154,10 +156,11 @@ CHECKS['C02'] = ('exploration', 'enum',
     '192 URLs x 2400 link records, every pair of groups on a reduced product, and in thorough all '
     '2^15 option subsets on a covering set: a filter (or the conjunction, or consult_filters with '
     'is_redirect) that lets a URL pass which the reference rule rejects is a violation; the '
-    'redirect waiver must apply only when span-hosts is the sole failure. Seven end-to-end crawls '
-    'offer out-of-scope links via pages, requisites and all five redirect codes.',
+    'redirect waiver must apply only when span-hosts is the sole failure. Nine end-to-end crawls '
+    'offer out-of-scope links via pages, requisites and all five redirect codes, each with robots '
+    'checking off and on (robots.txt may only be requested from an origin being visited).',
     'vt/refs/scope.py is the specification; over-restrictive verdicts are counted, not flagged '
-    '(nothing is requested); robots.txt exception covered by C20.', '5/C02')
+    '(nothing is requested); what robots.txt rules do is covered by C20.', '5/C02')
 CHECKS['C16'] = ('exploration', 'enum',
     'bounded-exhaustive enumeration of redirect chains, Location spellings and start URLs through '
     'the unmodified application; oracle on raw request bytes',
@@ -166,7 +169,8 @@ CHECKS['C16'] = ('exploration', 'enum',
     'info, IDN, IPv6, ports, encoded CR/LF): each request must be one well-formed request line '
     'whose target is the hop URL\'s normalised path?query, exactly one Host equal to the hop\'s '
     'host[:port], sent to that server, no bare CR/LF, no credentials/cookies of another host, no '
-    'https Referer on http.',
+    'https Referer on http. The credential chains also run with every server answering 401 first '
+    '(authentication state) and against WebClient.session() directly.',
     'expected target/Host derived from wpull\'s URL normaliser (C10 covers normalisation); no '
     'TLS, no proxy mode.', '5/C16')
 CHECKS['C18'] = ('model_checking', 'explore',
@@ -188,7 +192,9 @@ CHECKS['C10'] = ('exploration', 'enum',
     '20-symbol alphabet after "http://" and "http://h/": for each accepted network-scheme input '
     'the normal form must be ASCII, free of whitespace/C0, lower-case scheme/host, no default '
     'port, absolute path without dot/empty segments, upper-case escapes, idempotent, and re-parse '
-    'to the same components; six respelling families must each normalise to one string.',
+    'to the same components; six respelling families must each normalise to one string. Call '
+    'histories: every sequence of <=2 (3) normalisations over 32 (text, encoding) items from a '
+    'fresh interpreter (fork tree) must give each item its fresh-interpreter result.',
     'alphabets and lengths as stated; encoded dots are not dot segments.', '5/C10')
 CHECKS['C11'] = ('exploration', 'enum',
     'bounded-exhaustive enumeration of strings through URLInfo.parse, every documented accessor, '
@@ -198,7 +204,9 @@ CHECKS['C11'] = ('exploration', 'enum',
     'and control characters in three positions, bracket/colon/@ soup to length 6 (8), the C10 '
     'product under all codecs, and base x link products for joining: parse returns or raises '
     'ValueError within the time limit, every slot/property/method of a result can be read, '
-    'parse_url_or_log and urljoin_safe never raise.',
+    'parse_url_or_log and urljoin_safe never raise. Call histories: every sequence of <=2 (3) '
+    'calls over 52 (function, URL) items from a fresh interpreter must give each call its '
+    'fresh-interpreter outcome.',
     'alphabets as stated; lru_cache cleared per shard.', '5/C11')
 
 CHECKS['C15'] = ('exploration', 'enum',
@@ -208,7 +216,9 @@ CHECKS['C15'] = ('exploration', 'enum',
     'hostile names (dots, encoded dots/slashes/backslashes, NUL, newline, trailing dot/space, '
     'device names, 300 characters, non-ASCII) and 21 Content-Disposition values through the real '
     'writer session: every component below the prefix is a single non-empty name, never "." or '
-    '"..", no separator, no C0 unless allowed; realpath stays below the prefix.',
+    '"..", no separator, no C0 unless allowed; realpath stays below the prefix. Call histories: '
+    'every sequence of <=2 (3) namings over 33 (configuration, URL) items from a fresh '
+    'interpreter must give each its fresh-interpreter path.',
     'POSIX path semantics; namer exceptions are counted, not flagged.', '5/C15')
 CHECKS['C17'] = ('model_checking', 'bytestream',
     'bounded-exhaustive injection enumeration, exhaustive segmentation enumeration of replies and '
@@ -231,7 +241,9 @@ CHECKS['C09'] = ('exploration', 'enum',
     'status line and chunk-size line; HTTP streams whole and byte-at-a-time (thorough). The real '
     'Session/FTP Session/RobotsTxtChecker/DemuxDocumentScraper must return or raise one of the '
     'per-URL error kinds; 12 end-to-end crawls check that a hostile response leaves the exit status '
-    'non-crash and siblings fetched.',
+    'non-crash and siblings fetched; 1440 (2880) FTP crawls of the unmodified application where '
+    'the k-th use of one of 12 server stages answers a hostile reply must end with every URL in a '
+    'final state.',
     'only the stated edit neighbourhoods are covered: "raw random bytes" are outside a bounded '
     'enumeration (DESIGN.md section 11).', '5/C09')
 
